@@ -67,11 +67,44 @@ static void do_op(int me, struct op *op)
 		int t, guard = 0;
 		F->read_lock();
 		t = lor_trav_begin();
+		/* every documented iterator is exercised (op->b picks the form) */
 		if (use_hlist) {
 			struct cds_hlist_node *pos;
-			cds_hlist_for_each_entry_rcu(n, pos, &hlist, h) {
+			switch (op->b % 3) {
+			case 0:
+				cds_hlist_for_each_entry_rcu(n, pos, &hlist, h) {
+					if (++guard > 70)
+						usim_fail("rculist-no-termination", "hlist traversal does not terminate");
+					check_payload(n);
+					lor_trav_visit(t, (int) n->id);
+				}
+				break;
+			case 1:
+				cds_hlist_for_each_entry_rcu_2(n, &hlist, h) {
+					if (++guard > 70)
+						usim_fail("rculist-no-termination", "hlist traversal does not terminate");
+					if (!usim_mem_is_live(n) || (unsigned long) n < 4096 || (unsigned long) n > 0x7fffffffffffUL)
+						usim_fail("rculist-garbage", "hlist iterator handed out %p, which is not a list node", (void *) n);
+					check_payload(n);
+					lor_trav_visit(t, (int) n->id);
+				}
+				break;
+			default:
+				cds_hlist_for_each_rcu(pos, &hlist) {
+					if (++guard > 70)
+						usim_fail("rculist-no-termination", "hlist traversal does not terminate");
+					n = cds_hlist_entry(pos, struct lnode, h);
+					check_payload(n);
+					lor_trav_visit(t, (int) n->id);
+				}
+				break;
+			}
+		} else if (op->b % 2) {
+			struct cds_list_head *pos;
+			cds_list_for_each_rcu(pos, &list) {
 				if (++guard > 70)
-					usim_fail("rculist-no-termination", "hlist traversal does not terminate");
+					usim_fail("rculist-no-termination", "list traversal does not terminate");
+				n = cds_list_entry(pos, struct lnode, l);
 				check_payload(n);
 				lor_trav_visit(t, (int) n->id);
 			}
@@ -198,6 +231,7 @@ void scen_rculist(void)
 			struct op *op = &s->ops[i];
 			uint32_t r = rnd(100);
 			op->a = rnd(16);
+			op->b = rnd(6);
 			if (!updater || r < 25) op->kind = OP_TRAVERSE;
 			else if (r < 45) op->kind = OP_ADD;
 			else if (r < 60) op->kind = OP_ADD_TAIL;
